@@ -114,6 +114,10 @@ template <typename T>
     return ref(t.get());
 }
 
+/// \brief Rvalues cannot be wrapped: the wrapper would dangle.
+template <typename T>
+void ref(T const&&) = delete;
+
 /// \brief Function templates ref and cref are helper functions that generate an
 /// object of type reference_wrapper, using template argument deduction to
 /// determine the template argument of the result.
